@@ -2,6 +2,7 @@ import NgoVerif.Sexp
 import NgoVerif.Syntax
 import NgoVerif.Proofs.C09link
 import NgoVerif.Proofs.C11check
+import NgoVerif.Proofs.C16stm
 /-!
 # Driver ops that evaluate the *side conditions of the end-to-end theorems* on what the real passes did
 
@@ -9,6 +10,9 @@ import NgoVerif.Proofs.C11check
   decidable parts of `Proofs.C11sem.Symmetric` for the rule *before* `symmetry` replaced its literal `X != Y` by
   `X < Y`, with `σ` the involution exchanging the members of each listed pair (`(unsupported …)` if the rule has no
   such literal).
+* `(sem_split_cond <rule> <aux rule> <updated rule> <context program>)` → `(ok <splitCheck> <ctxCheck> <aux rule> <updated rule>)`:
+  `Proofs.C16stm.splitCheck` / `ctxCheck` for the split `projection` made of `<rule>`; the two rules the theorem speaks about
+  are returned and compared by the harness with what the real pass emitted.
 * `(sem_unused_cond <prog> "n" k)` → `(ok <every statement stmOk> <Unused n k prog>)`: the hypothesis of
   `C09_removal_sound/complete` for the program `unused` removed the rules of `n/k` from.
 The checks are the executable definitions `Proofs.C11check.symCheck` and `Proofs.C09sem.unusedCheck`, whose answer `true`
@@ -44,6 +48,19 @@ def handleSem : Sexp → Option Sexp
     some <| match Prog.ofSexp p, k.toNat? with
       | some prg, some k => .list [.atom "ok", ofBool (prg.all fun s => Proofs.C09link.stmOk s), ofBool (Proofs.C09sem.unusedCheck n k prg)]
       | _, _ => .list [.atom "unsupported", .str "program"]
+  | .list [.atom "sem_split_cond", o, a, u, p] =>
+    some <| match Stm.ofSexp o, Stm.ofSexp a, Stm.ofSexp u, Prog.ofSexp p with
+      | some (.rule l c h body), some (.rule _ _ (.lit (.pos, .sym (.fn auxName args false))) new), some (.rule _ _ _ ubody),
+        some ctx =>
+        match args.mapM (fun t => match t with | .var v => some v | _ => none) with
+        | some vs =>
+          let S : Proofs.C16stm.Split :=
+            { line := l, col := c, head := h, body := body, new := new, rest := ubody.dropLast, vs := vs, auxName := auxName }
+          -- `S.auxRule`, `S.updRule` are returned so that the harness can compare them with what the real pass emitted
+          .list [.atom "ok", ofBool (Proofs.C16stm.splitCheck S), ofBool (Proofs.C16stm.ctxCheck S ctx []),
+                 S.auxRule.toSexp, S.updRule.toSexp]
+        | none => .list [.atom "unsupported", .str "auxiliary head arguments are not variables"]
+      | _, _, _, _ => .list [.atom "unsupported", .str "rules"]
   | _ => none
 
 end NgoVerif
